@@ -61,6 +61,7 @@ def sorted_afterwards(f, local):
 
 def run(F, res, tier):
     every_part_of_a_change_is_applied(F, res)
+    source_root_ids_are_stable(F, res)
     reviewed = R.load_reviewed().get("C11", {})
     # ---- H1
     sites = []
@@ -617,3 +618,25 @@ def every_part_of_a_change_is_applied(F, res, rule="H9"):
         res.ob(rule, "apply/%s/%d" % (name, n_same), "Change::apply reaches %s whenever the part of the change it is for is present (only presence tests "
                "decide)" % name, not bad, where=ap0.loc(t["ln"]), how="decisions above the call: %s; other than presence tests: %s" % (
                    [(FL.short(g.get("callee") or ""), g.get("allowed")) for g in gs], bad))
+
+
+def source_root_ids_are_stable(F, res, rule="H10"):
+    """H10: "the same workspace gives the same answers in every run". A SourceRootId is the position of a root in the list the
+    server hands to Change::set_roots. Server::lower_vfs builds that list: it must not take its order from a RandomState-hashed
+    collection (ids dealt differently in every run and re-dealt at every structural change, while files that are not
+    registered again keep the id they had - the package graph then names another root). The list comes from an insertion-ordered
+    map / vector filled in the order of the configuration."""
+    from lib import hashiter as HI
+    lv = "glas::server::Server::lower_vfs"
+    f = F.fn(lv)
+    sites = [(g, b, t, h) for g, b, t, h, _r in HI.hash_iteration_sites(F, lambda p: p.startswith(lv)) if h == "RandomState"]
+    # what the result is collected from
+    d = FL.Defs(f)
+    src = []
+    for b, t in f.calls():
+        if FL.short(callee(t) or callee_def(t) or "").endswith("::collect") and "SourceRoot" in str(f.local_ty(t["dest"]["l"]) or ""):
+            dep = FL.depends(F, f, d, t["args"][0], use_bb=b)
+            src = sorted(FL.short(c) for c in dep["calls"] if c.rsplit("::", 1)[-1] in ("into_iter", "iter", "drain", "into_values", "values"))
+    res.ob(rule, "lower_vfs/configuration-order", "the list of source roots (whose positions are the SourceRootIds) is not taken out of a hash map",
+           not sites and bool(src), where=f.loc(), how="iterations over RandomState-hashed collections in lower_vfs: %s; the result is collected from %s" % (
+               ["line %d" % t["ln"] for g, b, t, h in sites], src))
